@@ -352,7 +352,7 @@ class World:
             return ".", self.abs(root)
         return self.abs(root), None
 
-    def create(self, root, formats=("xxh64",), sf=None, flags=(), extra=(), spell="abs", **kw):
+    def create(self, root, formats=("xxh64",), sf=None, flags=(), extra=(), spell="abs", sf_spell=None, **kw):
         a0, cwd = self.spelled(root, spell)
         if cwd is not None:
             kw = dict(kw, cwd=cwd)
@@ -367,6 +367,13 @@ class World:
                 sp = os.path.relpath(sp, cwd)
                 if sp.startswith("-"):
                     sp = "./" + sp
+            if sf_spell:
+                # the same file, typed in a form that is not normalised: a/./b or a/../a/b
+                head, tail = os.path.split(sp)
+                if sf_spell == "dotdot" and head not in ("", "/", ".") and os.path.basename(head) not in ("", ".", ".."):
+                    sp = os.path.join(head, "..", os.path.basename(head), tail)
+                else:
+                    sp = os.path.join(head or ".", ".", tail) if head else "./" + tail
             args += ["-sf", sp]
         args += list(extra)
         roots_before = self.history_roots()
